@@ -8,9 +8,9 @@ import itertools
 from sa.astx import call_name, dotted, src, walk_local
 from sa.effects import accesses, class_accesses
 from sa.selftest import Mutant, Silent
-from sa.source import AnalysisError, methods
-from sa.props._lib_b import (MiniBudget, MiniEval, MiniRaise, ModelObj, SymExec, Unsupported, lin_cmp, lin_cmp_text, lin_eq,
-                              lin_sub, lin_text, linform, model_class, swallowing_predicate, check_delayed_call)
+from sa.source import methods
+from sa.props._lib_b import (MiniBudget, MiniEval, MiniRaise, Unsupported, check_delayed_call, lin_cmp, lin_cmp_text, lin_eq, linform,
+                              model_class, swallowing_predicate)
 
 PROPERTY = "C08"
 BASE = "internet/base.py"
@@ -27,8 +27,9 @@ EXPLANATION = (
     "`time` only ever decreases under a guard that proves the decrease and is then followed by resetter(self), otherwise "
     "delayed_time stays >= 0; __lt__/__le__/getTime evaluated on a finite grid; cancel() marks and notifies; (c) in "
     "runUntilCurrent the call-out is dominated by not-cancelled, not-delayed and the exact boundary head.time <= now, the "
-    "call is popped and marked called first, is isolated by a log-and-continue context, every popped call is run, re-pushed or "
-    "a counted cancellation, new calls are inserted before the loop only and activate_delay is applied only to calls outside "
+    "call is popped and marked called first, is isolated by a log-and-continue context after which the loop continues, every "
+    "popped live call is run or re-pushed (with its delay folded into the key), the loop re-examines the heap after each call, "
+    "new calls are inserted before the loop only and activate_delay is applied only to calls outside "
     "the heap; (d) staging list fully drained and cleared; _cancellations coupled with dropped cancelled calls and with "
     "compaction, whose filter keeps exactly the live calls; (e) timeout() and getDelayedCalls() evaluated on model reactors "
     "(0 <= timeout <= time to head; exactly the live calls of both lists).  Not decided: wall-clock timeliness, float rounding, "
